@@ -35,6 +35,7 @@ fn main() {
 		"c20" => props::c20::main(&args[2..]),
 		"c09e" => props::c09e::main(&args[2..]),
 		"c09s" => props::c09s::main(&args[2..]),
+		"c10r" => props::c10r::main(&args[2..]),
 		"c01" | "c03" | "c04" | "c07" | "c08" | "c09" | "c09rc" | "hist" => props::hist::main(&args[2..], args[1].as_str()),
 		other => {
 			eprintln!("unknown subcommand {other}");
